@@ -88,7 +88,7 @@ pub(crate) mod __verif {
         kani::cover!(s.ivs.len() > old.len() || n == 2);
     }
 
-    // @obligation name=ck1_add_len0 props=C12,C07:t fn=codepointset::CodePointSet::add,codepointset::CodePointSet::contains kind=bounded bound="set of 0 intervals; new interval symbolic" min_checks=50 w=2 timeout=900
+    // @obligation name=ck1_add_len0 props=C12 fn=codepointset::CodePointSet::add,codepointset::CodePointSet::contains kind=bounded bound="set of 0 intervals; new interval symbolic" min_checks=50 w=2 timeout=900
     // add on the empty set: result is well-formed and denotes exactly the interval.
     #[kani::proof]
     #[kani::unwind(6)]
@@ -104,7 +104,7 @@ pub(crate) mod __verif {
         kani::cover!(niv.first < niv.last);
     }
 
-    // @obligation name=ck1_add_len1 props=C12,C07:t fn=codepointset::CodePointSet::add kind=bounded bound="set of 1 symbolic interval; new interval symbolic (insert before/after, merge)" min_checks=50 w=2 timeout=900
+    // @obligation name=ck1_add_len1 props=C12 fn=codepointset::CodePointSet::add kind=bounded bound="set of 1 symbolic interval; new interval symbolic (insert before/after, merge)" min_checks=50 w=2 timeout=900
     // add on a 1-interval set: well-formed result whose members are the union (covers insert and single-merge arms).
     #[kani::proof]
     #[kani::unwind(6)]
@@ -112,7 +112,7 @@ pub(crate) mod __verif {
         add_body(1);
     }
 
-    // @obligation name=ck1_add_len2 props=C12,C07:t fn=codepointset::CodePointSet::add kind=bounded bound="set of 2 symbolic intervals; new interval symbolic (all three arms incl. multi-merge with drain)" min_checks=50 w=3 timeout=1500
+    // @obligation name=ck1_add_len2 props=C12 fn=codepointset::CodePointSet::add kind=bounded bound="set of 2 symbolic intervals; new interval symbolic (all three arms incl. multi-merge with drain)" min_checks=50 w=3 timeout=1500
     // add on a 2-interval set: well-formed result whose members are the union (covers the multi-interval merge arm).
     #[kani::proof]
     #[kani::unwind(6)]
